@@ -240,9 +240,7 @@ class Runner:
         import itertools
         lrange = [1] if n == 1 else list(range(1, min(n, len(self.ref.enabled) + 2)))
         lags = list(itertools.islice(iter(sorted(itertools.product(lrange, repeat=len(wfl)), key=lambda t: (sum(t), t))), 3000)) if wfl else [()]
-        # a short count does not set errno and the C tests a stale one: both classifications are admissible (S = fatal, T = as EIO)
-        nshort = len([1 for w_ in wfl if w_[2][0] == 'S'])
-        lags = [(lg, st) for lg in lags for st in itertools.product('ST', repeat=nshort)]
+        lags = [(lg, ()) for lg in lags]
         sm = r.summary()
         bailed_real = sm.get('exit') not in ('ok', 'error')
         real = {'fail': r.rc != 0, 'content': self.norm(br.ser_content(st2))}
@@ -255,9 +253,6 @@ class Runner:
             wq = []
             si = 0
             for (wpos, wlev, wk), lg in zip(wfl, lagc):
-                if wk[0] == 'S':
-                    wk = stale[si] + wk[1:]
-                    si += 1
                 wq += [str(wpos), str(wlev), wk, str(lg)]
             lag = max(lagc) if lagc else 1
             req = base + ['W', str(len(wfl))] + wq
